@@ -521,6 +521,56 @@ def api_options(run, ir, zm, m, nper, mask, deviation):
         run.counterexample(key, f"kalman:option:{zm.name}", "a variant of the two-variant run differs from the single-variant run", case)
     else:
         run.unknown(key, f"solver {res}")
+    # two variants that differ in a transition-shock std: variant 1 must equal the single-variant model given variant 1's std
+    # (means, stds, likelihood: the initial MSE, the recursion and the likelihood all have to use the variant's own covariance)
+    key = f"options:{zm.name}:dev={deviation}:mask={ms}:two variants with different stds"
+    case = dict(kind="api_option", model=zm.name, deviation=deviation, nper=nper, mask=ms, option="variants_stds", values={})
+    sname = "std_" + zm.tshocks[0]
+    s0 = float(STDS[zm.name][sname])
+    m3 = m.copy()
+    m3.alter_num_variants(2)
+    m3.assign(**{sname: [s0, 2.5 * s0]})
+    f1 = m.copy()
+    f1.assign(**{sname: 2.5 * s0})
+    try:
+        with kf.KalmanLift(ir, zm.mvars) as L3, S.Path() as path3:
+            two = m3.kalman_filter(db, span, deviation=deviation)
+        with kf.KalmanLift(ir, zm.mvars) as L4, S.Path() as path4:
+            one = f1.kalman_filter(db, span, deviation=deviation)
+    except S.SymbolicBranchError:
+        raise
+    except Exception as exc:
+        run.counterexample(key, f"kalman:option_raises:{zm.name}", f"two-variant kalman_filter raises {type(exc).__name__}: {str(exc)[:120]}", case)
+        return
+    eqs, bad, nums = [], None, []
+    for kind in ("predict_med", "update_med", "smooth_med", "predict_std", "smooth_std"):
+        if kind not in two or kind not in one:
+            continue
+        for a, b in zip(cells(two, kind, 1), cells(one, kind, 0)):
+            if (a is None) != (b is None):
+                bad = f"{kind}: a cell is missing on one side"
+                break
+            if a is not None:
+                d = a - b
+                eqs.append(z3.And(d <= TOL, d >= -TOL))
+    if len(L3.caches) >= 2 and L4.caches:
+        d = S.const(L3.caches[1].neg_log_likelihood).t - S.const(L4.caches[0].neg_log_likelihood).t
+        eqs.append(z3.And(d <= Fraction(1, 10 ** 7), d >= -Fraction(1, 10 ** 7)))
+    else:
+        bad = bad or "the filter was not run once per variant"
+    if bad:
+        run.counterexample(key, f"kalman:variants:{zm.name}", bad, case)
+        return
+    box = _box(dict(L3.cap["syms"]))
+    res, mdl = run.prove(key, z3.And(*eqs), box + [path3.condition(), path4.condition()], timeout_ms=120000, nl=True)
+    if res == "unsat":
+        run.ok(key)
+    elif res == "sat":
+        vals = model_values(mdl, sorted(L3.cap["syms"]))
+        run.counterexample(key, f"kalman:variants:{zm.name}", "variant 1 of a two-variant model (different transition-shock std) differs from the single-variant model with that std",
+                           dict(case, values={n_: [v.numerator, v.denominator] for n_, v in vals.items()}))
+    else:
+        run.unknown(key, f"solver {res}")
 
 
 # ------------------------------------------------------------------------------------------
@@ -843,8 +893,36 @@ def replay(case):
     span = start >> (start + nper - 1)
     db = _data_db(ir, zm, start, nper, mask, values=vals)
     if case["kind"] == "api_option":
-        full = m.kalman_filter(db, span, deviation=deviation)
         opt = case["option"]
+        if opt == "variants_stds":
+            sname = "std_" + zm.tshocks[0]
+            s0 = float(STDS[zm.name][sname])
+            m3 = m.copy(); m3.alter_num_variants(2); m3.assign(**{sname: [s0, 2.5 * s0]})
+            f1 = m.copy(); f1.assign(**{sname: 2.5 * s0})
+            try:
+                two, info2 = m3.kalman_filter(db, span, deviation=deviation, return_info=True)
+                one, info1 = f1.kalman_filter(db, span, deviation=deviation, return_info=True)
+            except Exception as exc:
+                return True, f"kalman_filter raises {type(exc).__name__}: {exc}"
+            worst, msg = 0.0, "variant 1 equals the single-variant model"
+            for kind in ("predict_med", "update_med", "smooth_med", "predict_std", "smooth_std"):
+                for n in list(zm.tvars) + list(zm.tshocks):
+                    if n not in two[kind] or n not in one[kind]:
+                        continue
+                    a = np.asarray(two[kind][n].get_data(span), dtype=float)
+                    b = np.asarray(one[kind][n].get_data(span), dtype=float)
+                    if a.shape[1] < 2:
+                        return True, f"{kind}[{n}] has {a.shape[1]} variant(s)"
+                    d = np.abs(a[:, 1] - b[:, 0])
+                    d = float(np.nanmax(d)) if np.isfinite(d).any() else 0.0
+                    if d > worst:
+                        worst, msg = d, f"{kind}[{n}]: variant 1 differs from the single-variant model by {d!r}"
+            n2 = info2[1]["neg_log_likelihood"] if isinstance(info2, (list, tuple)) else info2["neg_log_likelihood"]
+            d = abs(float(np.asarray(n2).reshape(-1)[-1]) - float(np.asarray(info1["neg_log_likelihood"]).reshape(-1)[0]))
+            if d > worst:
+                worst, msg = d, f"neg_log_likelihood of variant 1 differs by {d!r}"
+            return worst > 1e-7, msg
+        full = m.kalman_filter(db, span, deviation=deviation)
         try:
             if opt == "variants_singularity":
                 m2 = m.copy(); m2.alter_num_variants(2)
